@@ -518,6 +518,7 @@ fn child_replay(case: &Value) -> ! {
 struct ChildOutcome {
     result: Option<Value>,
     status: String,
+    code: Option<i32>,
     fail_lines: Vec<String>,
     stderr_tail: String,
 }
@@ -550,7 +551,7 @@ fn spawn_child(mode: &str, tier: Tier, seed: u64, extra_env: &[(&str, String)]) 
     let _ = std::fs::remove_file(&out_path);
     let _ = std::fs::remove_file(&fail_path);
     let _ = std::fs::remove_file(&err_path);
-    ChildOutcome { result, status: format!("{status}"), fail_lines, stderr_tail }
+    ChildOutcome { result, status: format!("{status}"), code: status.code(), fail_lines, stderr_tail }
 }
 
 fn absorb(rep: &mut Report, stats: &mut BTreeMap<String, Stat>, family: &str, tier: Tier, seed: u64, o: ChildOutcome) {
@@ -576,6 +577,10 @@ fn absorb(rep: &mut Report, stats: &mut BTreeMap<String, Stat>, family: &str, ti
             }
         }
         None => {
+            // the child's own machinery error (bad fixture, unwritable result) is ours, not lumina's
+            if o.code == Some(2) || o.code == Some(0) {
+                machinery_error("C16", &format!("subprocess of family {family} failed ({}): {}", o.status, o.stderr_tail));
+            }
             // the child died: attribute it
             let refused: Vec<&String> = o.fail_lines.iter().filter(|l| l.starts_with("ALLOC-REFUSED ")).collect();
             let mut attributed = false;
